@@ -116,6 +116,101 @@ def lookup (key : Bytes) : List Bytes → Option Bytes
   | [] => none
   | e :: rest => if EQ ∈ e ∧ nameOf e = key then some (valueOf e) else lookup key rest
 
+/-! ## the argument iterators as stateful objects (`ArgsOs`, `Args` — tiny-std/src/env.rs)
+
+`ArgsOs { ind, num_args }` (Model/Start.lean `ArgsOs`) implements `Iterator::next` and overrides
+`ExactSizeIterator::len` (`self.num_args`); `Args(ArgsOs)` implements `next` (`self.0.next().map(as_str)`)
+and `len` (`self.0.num_args`).  NOTHING else is overridden, so every other method a program can call is
+`core`'s default body over that `next`; those bodies are mirrored here over an arbitrary `next` function
+`nx` (`ArgsOs.next m e fuel` for `ArgsOs`, `Args.next m e fuel` for `Args`):
+
+  nth(n)            `self.advance_by(n).ok()?; self.next()`   (advance_by: `n ×` next, stop at the first None)
+  skip(k).next()    `if self.n > 0 { self.iter.nth(take(&mut self.n)) } else { self.iter.next() }`
+  step_by(k)        `assert!(k != 0)`; each call: `self.iter.nth(if first_take { 0 } else { k - 1 })`
+  fold / for_each   `while let Some(x) = self.next() { … }`;  count = fold(+1);  last = fold(Some)
+  size_hint()       `(0, None)`  (the default; NOT overridden although both types are `ExactSizeIterator`)
+  len()             `num_args`   (AS WRITTEN: the total, not what remains)
+-/
+
+abbrev Nx (α : Type) := ArgsOs → R (Option α × ArgsOs)
+
+/-- default `Iterator::nth` -/
+def nthWith {α : Type} (nx : Nx α) : Nat → ArgsOs → R (Option α × ArgsOs)
+  | 0, it => nx it
+  | n + 1, it => (nx it).bind fun r =>
+      match r.1 with
+      | none => .ok (none, r.2)
+      | some _ => nthWith nx n r.2
+
+/-- `Skip::next` on a `skip(k)` adapter that has not been polled yet -/
+def skipNextWith {α : Type} (nx : Nx α) (k : Nat) (it : ArgsOs) : R (Option α × ArgsOs) :=
+  if k > 0 then nthWith nx k it else nx it
+
+/-- default `fold` (= `for x in it`): the items `next` yields until its first `None`, and the iterator
+    left behind (first argument bounds the number of calls) -/
+def drainWith {α : Type} (nx : Nx α) : Nat → ArgsOs → R (List α × ArgsOs)
+  | 0, _ => .fuel
+  | f + 1, it => (nx it).bind fun r =>
+      match r.1 with
+      | none => .ok ([], r.2)
+      | some x => (drainWith nx f r.2).bind fun q => .ok (x :: q.1, q.2)
+
+/-- `for x in it.step_by(sm1 + 1)`: `StepBy::next` until its first `None` -/
+def stepLoopWith {α : Type} (nx : Nx α) (sm1 : Nat) : Nat → Bool → ArgsOs → R (List α × ArgsOs)
+  | 0, _, _ => .fuel
+  | f + 1, first, it => (nthWith nx (if first then 0 else sm1) it).bind fun r =>
+      match r.1 with
+      | none => .ok ([], r.2)
+      | some x => (stepLoopWith nx sm1 f false r.2).bind fun q => .ok (x :: q.1, q.2)
+
+/-- one call on the iterator object -/
+inductive ItOp where
+  | next
+  | nth (k : Nat)
+  | skip (k : Nat)        -- `it.by_ref().skip(k).next()`
+  | stepBy (k : Nat)      -- `it.by_ref().step_by(k)` polled until `None`
+  | len
+  | sizeHint
+  | count
+  | last
+  | fold                  -- every remaining item, in order
+  deriving Repr, DecidableEq
+
+/-- what the call answered -/
+inductive ItOut (α : Type) where
+  | item (o : Option α)
+  | items (l : List α)
+  | num (n : Nat)
+  | hint (lo : Nat) (hi : Option Nat)
+  deriving Repr, DecidableEq
+
+/-- `last` of the default `fold(None, |_, x| Some(x))` -/
+def lastOf {α : Type} : List α → Option α
+  | [] => none
+  | [x] => some x
+  | _ :: y :: r => lastOf (y :: r)
+
+/-- one op on the iterator `it`: its answer and the iterator afterwards -/
+def itStep {α : Type} (nx : Nx α) (fuel : Nat) (op : ItOp) (it : ArgsOs) : R (ItOut α × ArgsOs) :=
+  match op with
+  | .next => (nx it).bind fun r => .ok (.item r.1, r.2)
+  | .nth k => (nthWith nx k it).bind fun r => .ok (.item r.1, r.2)
+  | .skip k => (skipNextWith nx k it).bind fun r => .ok (.item r.1, r.2)
+  | .stepBy k =>
+    if k = 0 then .panic          -- `assert!(step != 0)`
+    else (stepLoopWith nx (k - 1) fuel true it).bind fun r => .ok (.items r.1, r.2)
+  | .len => .ok (.num it.len, it)
+  | .sizeHint => .ok (.hint 0 none, it)
+  | .count => (drainWith nx fuel it).bind fun r => .ok (.num r.1.length, r.2)
+  | .last => (drainWith nx fuel it).bind fun r => .ok (.item (lastOf r.1), r.2)
+  | .fold => (drainWith nx fuel it).bind fun r => .ok (.items r.1, r.2)
+
+/-- a script of calls on ONE iterator object, answers in order -/
+def runOps {α : Type} (nx : Nx α) (fuel : Nat) : List ItOp → ArgsOs → R (List (ItOut α))
+  | [], _ => .ok []
+  | op :: rest, it => (itStep nx fuel op it).bind fun r =>
+      (runOps nx fuel rest r.2).bind fun outs => .ok (r.1 :: outs)
+
 /-! ## the code before the fix -/
 namespace Legacy
 
